@@ -218,4 +218,26 @@ def canonical_count(crate, lb):
                                     if r == ("bin", "Eq", ("param", 2), ("const", "int", 10)) or r == ("bin", "Eq", ("const", "int", 10), ("param", 2)):
                                         return True, "bytes().take(offset).filter(== 0x0A).count() + 1"
                                     return False, "filter predicate is %s" % show(r)
+    # the same count written as a loop:  n = 0; for b in text.bytes().take(offset) { if b == b'\n' { n += 1 } }  ;  n + 1
+    if v[0] == "bin" and v[1] == "Add":
+        a, b = v[2], v[3]
+        if a[0] == "const":
+            a, b = b, a
+        while a[0] == "cast":
+            a = a[1]
+        if b == ("const", "int", 1) and a[0] == "phi" and len(a[2]) == 2 and ("const", "int", 0) in a[2] and ("bin", "Add", ("rec", a[1]), ("const", "int", 1)) in a[2] \
+                and a[1][0] == lb.path:
+            import order as O
+            cnt = a[1][1]
+            incs = [d for d in lb.defs.get(cnt, []) if not (d[3] == "rv" and d[4]["k"] == "use" and d[4]["o"]["k"] == "const")]
+            loops = O.loops_of_body(lb)
+            if len(incs) == 1 and len(loops) == 1:
+                lp = loops[0]
+                it = lp.iterable
+                src_ok = T.is_call(it, "Iterator::take") and len(it[2]) == 2 and it[2][1] == ("param", 1) and T.is_call(it[2][0], "bytes") and it[2][0][2] and it[2][0][2][0] == ("param", 2)
+                g = S.block_guard(lb, incs[0][0], {("elem", it): "b"})
+                guard_ok = g == [["eq(b, 10)"]]
+                if src_ok and guard_ok and incs[0][0] in lp.blocks and not lp.exits()[1] and not lb.loops_of(lp.site.bb)[:-1]:
+                    return True, "counting loop over bytes().take(offset), +1 per 0x0A, result + 1"
+                return False, "counting loop: source_ok=%s increment guard=%s early exits=%s" % (src_ok, S.guard_str(g), bool(lp.exits()[1]))
     return False, "unrecognised form: %s" % show(v)[:160]
